@@ -165,6 +165,9 @@ class Tr:
                 return lit_int(self.spec["class_tags"][e.id])        # a class used as a value: its tag
             raise Unsupported(f"name {e.id}")
         if isinstance(e, ast.Attribute):
+            if isinstance(e.value, ast.Name) and (e.value.id + "." + e.attr) in self.spec.get("bytes_consts", {}) and self.native:
+                # a class-level bytes constant that harness/extract.py regenerates from the module (Generated/Consts.lean)
+                return V("bytes", self.spec["bytes_consts"][e.value.id + "." + e.attr])
             if not self.is_class_state(e) and isinstance(e.value, ast.Name) and e.value.id not in st \
                     and e.attr in self.spec.get("module_enums", {}).get(e.value.id, {}):
                 return lit_int(self.spec["module_enums"][e.value.id][e.attr])      # `ResponseId.STATE`: an IntEnum member
@@ -1370,6 +1373,14 @@ LAN_SPECS = [
          inputs=[("call:is_xml", "bool"), ("data", "bytes")], probes={"ET.fromstring": ("ET.ParseError", "call:is_xml")},
          out=("value", "int"), rtype="R Int", effectful=True, native_bytes=True,
          model="(Model.getDeviceVersion is_xml data).map (fun n => (n : Int))"),
+    dict(name="securitySign", file=LAN, func="Security.sign", inputs=[("data", "bytes")],
+         bytes_consts={"Security.SIGN_KEY": "Generated.signKey", "cls.SIGN_KEY": "Generated.signKey"},
+         out=("value", "bytes"), rtype="R Bytes", effectful=True, native_bytes=True,
+         model="Except.ok (Model.sign data)"),
+    dict(name="securityUdpid", file=LAN, func="Security.udpid", inputs=[("device_id", "bytes")],
+         externals={"strxor": ("Py.strxor", ["bytes", "bytes"], "bytes", True, "comm")},
+         out=("value", "bytes"), rtype="R Bytes", effectful=True, native_bytes=True,
+         model="Except.ok (Model.udpid device_id)"),
     dict(name="packetEncode", file=LAN, func="_Packet.encode",
          inputs=[("device_id", "int"), ("command", "bytes"), ("call:ts", "bytes")],
          out=("value", "bytes"), rtype="R Bytes", effectful=True, native_bytes=True,
